@@ -379,6 +379,8 @@ pub fn is_brackets_string(expression: &Expression) -> bool {
         Expression::TypeAssertion { expression, .. } => is_brackets_string(expression),
         // Redundant parentheses around the string are removed when it is formatted
         Expression::Parentheses { expression, .. } => is_brackets_string(expression),
+        // `[ [[a]] .. b ]`: the string is the first thing after the bracket
+        Expression::BinaryOperator { lhs, .. } => is_brackets_string(lhs),
         _ => false,
     }
 }
